@@ -46,7 +46,7 @@ type Prog struct {
 
 // loadProg loads dir (the repository root) with the given extra build tags / env.
 func loadProg(dir string, tags string, extraEnv []string) (*Prog, error) {
-	env := append(os.Environ(), "GOWORK=off", "GOFLAGS=-mod=mod", "GOPROXY=off", "GOSUMDB=off", "GOTOOLCHAIN=local")
+	env := append(os.Environ(), "GOWORK=off", "GOFLAGS=-mod=mod -trimpath", "GOPROXY=off", "GOSUMDB=off", "GOTOOLCHAIN=local")
 	env = append(env, extraEnv...)
 	cfg := &packages.Config{
 		Mode:  packages.LoadSyntax | packages.NeedModule,
@@ -597,6 +597,39 @@ func (p *Prog) buildSummaries() {
 	p.readFields = map[*ssa.Function]map[*types.Var]bool{}
 	p.wholeStore = map[*ssa.Function]map[string]bool{}
 	p.extImpure = map[*ssa.Function]bool{}
+	// lazy caches: fields every store to which is result 0 of time.ParseDuration (the options'
+	// memoised durations). Filling such a cache changes no observable value — the accessors are
+	// verified idempotent by C16.R3 — so it does not count as a mutation for purity purposes.
+	lazyCache := map[*types.Var]bool{}
+	notLazy := map[*types.Var]bool{}
+	for _, fn := range p.Funcs {
+		for _, b := range fn.Blocks {
+			for _, in := range b.Instrs {
+				st, ok := in.(*ssa.Store)
+				if !ok {
+					continue
+				}
+				f := fieldOfAddr(st.Addr)
+				if f == nil {
+					continue
+				}
+				isParse := false
+				if ex, ok := st.Val.(*ssa.Extract); ok && ex.Index == 0 {
+					if c, ok := ex.Tuple.(*ssa.Call); ok {
+						if g := c.Common().StaticCallee(); g != nil && pkgPathOfFn(g) == "time" && g.Name() == "ParseDuration" {
+							isParse = true
+						}
+					}
+				}
+				if isParse && !notLazy[f] {
+					lazyCache[f] = true
+				} else {
+					notLazy[f] = true
+					delete(lazyCache, f)
+				}
+			}
+		}
+	}
 	for _, fn := range p.Funcs {
 		mut, rd, whole := map[*types.Var]bool{}, map[*types.Var]bool{}, map[string]bool{}
 		for _, b := range fn.Blocks {
@@ -607,7 +640,9 @@ func (p *Prog) buildSummaries() {
 						continue // local memory
 					}
 					if f := fieldOfAddr(x.Addr); f != nil {
-						mut[f] = true
+						if !lazyCache[f] {
+							mut[f] = true
+						}
 					} else if pt, ok := x.Addr.Type().Underlying().(*types.Pointer); ok {
 						if _, isSt := pt.Elem().Underlying().(*types.Struct); isSt {
 							whole[types.TypeString(pt.Elem(), nil)] = true
